@@ -33,32 +33,26 @@ pub struct Session {
     pub init_mem: Box<[u16; 0x10000]>,
 }
 
-/// Address windows compared under Miri (the interpreter makes a 64K-word scan per prompt
-/// prohibitively slow; there the point of the run is UB detection, the native runs compare
-/// every word): low memory, the top of user space / stack area, and the top of memory.
-pub fn miri_windows() -> [(usize, usize); 4] {
-    [(0x0000, 0x0040), (0x2FC0, 0x3400), (0xFD80, 0xFE40), (0xFFF0, 0x10000)]
-}
-
+/// Words of `mem` which differ from `init`. Whole-slice and per-block comparisons come first: they
+/// are single `memcmp`s (cheap even under Miri, which would otherwise spend its time on a 64K-word
+/// loop per prompt), and only blocks that differ are scanned word by word.
 pub fn diff_mem(mem: &[u16; 0x10000], init: &[u16; 0x10000]) -> Vec<(u16, u16)> {
-    if cfg!(miri) {
-        let mut v = Vec::new();
-        for (lo, hi) in miri_windows() {
-            for a in lo..hi {
-                if mem[a] != init[a] {
-                    v.push((a as u16, mem[a]));
-                }
-            }
-        }
-        return v;
-    }
     if mem[..] == init[..] {
         return Vec::new();
     }
-    (0..0x10000usize)
-        .filter(|&a| mem[a] != init[a])
-        .map(|a| (a as u16, mem[a]))
-        .collect()
+    let mut v = Vec::new();
+    for block in 0..256usize {
+        let (lo, hi) = (block << 8, (block + 1) << 8);
+        if mem[lo..hi] == init[lo..hi] {
+            continue;
+        }
+        for a in lo..hi {
+            if mem[a] != init[a] {
+                v.push((a as u16, mem[a]));
+            }
+        }
+    }
+    v
 }
 
 /// Run a real debugger session on this (fresh) thread.
